@@ -3,6 +3,7 @@
 package checks
 
 import (
+	"errors"
 	"encoding/json"
 	"fmt"
 	"os"
@@ -230,6 +231,19 @@ func jsonKeyOrder(b []byte, err error) string {
 	return strings.Join(keys, ",")
 }
 
+// eachStopAt > 0 makes the callbacks of the adapters' Each stop the iteration (by returning an
+// error) after that many elements: the reader op "keys-stop".
+var eachStopAt int
+
+var errEachStop = errors.New("stop")
+
+func eachStop(n int) error {
+	if eachStopAt > 0 && n >= eachStopAt {
+		return errEachStop
+	}
+	return nil
+}
+
 func collAdapters() []collAdapter {
 	return []collAdapter{
 		{"Servers", func() (interface{}, func(k, v string), func(k, v string), func(k, s string), func(k string) (string, bool), func() int, func() string, func() string) {
@@ -250,7 +264,7 @@ func collAdapters() []collAdapter {
 				m.Len,
 				func() string {
 					var ks []string
-					m.Each(func(k string, _ *catalog.Server) error { ks = append(ks, k); return nil })
+					m.Each(func(k string, _ *catalog.Server) error { ks = append(ks, k); return eachStop(len(ks)) })
 					return strings.Join(ks, ",")
 				},
 				func() string { return jsonKeyOrder(m.MarshalJSON()) }
@@ -273,7 +287,7 @@ func collAdapters() []collAdapter {
 				m.Len,
 				func() string {
 					var ks []string
-					m.Each(func(k catalog.TagName, _ *catalog.Tag) error { ks = append(ks, string(k)); return nil })
+					m.Each(func(k catalog.TagName, _ *catalog.Tag) error { ks = append(ks, string(k)); return eachStop(len(ks)) })
 					return strings.Join(ks, ",")
 				},
 				func() string { return jsonKeyOrder(m.MarshalJSON()) }
@@ -299,7 +313,7 @@ func collAdapters() []collAdapter {
 				m.Len,
 				func() string {
 					var ks []string
-					m.Each(func(k string, _ *catalog.UserType) error { ks = append(ks, k); return nil })
+					m.Each(func(k string, _ *catalog.UserType) error { ks = append(ks, k); return eachStop(len(ks)) })
 					return strings.Join(ks, ",")
 				},
 				func() string { return jsonKeyOrder(m.MarshalJSON()) }
@@ -323,7 +337,7 @@ func collAdapters() []collAdapter {
 				m.Len,
 				func() string {
 					var ks []string
-					m.Each(func(k string, _ *catalog.UserRule) error { ks = append(ks, k); return nil })
+					m.Each(func(k string, _ *catalog.UserRule) error { ks = append(ks, k); return eachStop(len(ks)) })
 					return strings.Join(ks, ",")
 				},
 				func() string { return jsonKeyOrder(m.MarshalJSON()) }
@@ -348,7 +362,7 @@ func collAdapters() []collAdapter {
 				m.Len,
 				func() string {
 					var ks []string
-					m.Each(func(k catalog.InteractionID, _ catalog.Interaction) error { ks = append(ks, k.String()); return nil })
+					m.Each(func(k catalog.InteractionID, _ catalog.Interaction) error { ks = append(ks, k.String()); return eachStop(len(ks)) })
 					return strings.Join(ks, ",")
 				},
 				func() string { return jsonKeyOrder(m.MarshalJSON()) }
@@ -376,7 +390,7 @@ func collAdapters() []collAdapter {
 				m.Len,
 				func() string {
 					var ks []string
-					m.Each(func(k string, _ *directive.Directive) error { ks = append(ks, k); return nil })
+					m.Each(func(k string, _ *directive.Directive) error { ks = append(ks, k); return eachStop(len(ks)) })
 					return strings.Join(ks, ",")
 				},
 				func() string { return jsonKeyOrder(m.MarshalJSON()) }
@@ -440,6 +454,11 @@ func (r *refMap) apply(op opSpec, tid int) string {
 		return fmt.Sprint(len(r.data))
 	case "keys", "json":
 		return strings.Join(r.order, ",")
+	case "keys-stop": // an iteration its callback stops after the first element
+		if len(r.order) == 0 {
+			return ""
+		}
+		return r.order[0]
 	}
 	return "?"
 }
@@ -524,7 +543,7 @@ func runC16(c *fw.Ctx) {
 
 	// H1
 	writers := []string{"set", "settop", "update", "setother"}
-	readers := []string{"get", "len", "keys", "json"}
+	readers := []string{"get", "len", "keys", "json", "keys-stop"}
 	for _, ad := range collAdapters() {
 		ad := ad
 		for _, pre := range []bool{false, true} {
@@ -564,6 +583,10 @@ func runC16(c *fw.Ctx) {
 										results[tid] = fmt.Sprint(length())
 									case "keys":
 										results[tid] = keys()
+									case "keys-stop":
+										eachStopAt = 1
+										results[tid] = keys()
+										eachStopAt = 0
 									case "json":
 										results[tid] = jsonKeys()
 									}
@@ -825,7 +848,7 @@ func runC16(c *fw.Ctx) {
 				bodies = append(bodies, func() {
 					l := cat.Interactions.Len() + cat.Tags.Len() + cat.Servers.Len()
 					var ks []string
-					cat.Tags.Each(func(k catalog.TagName, _ *catalog.Tag) error { ks = append(ks, string(k)); return nil })
+					cat.Tags.Each(func(k catalog.TagName, _ *catalog.Tag) error { ks = append(ks, string(k)); return eachStop(len(ks)) })
 					res[2] = fmt.Sprint(l, ks)
 				})
 			}
